@@ -446,6 +446,11 @@ theorem normInf_exact (hfabs : ∀ x : Fl M, (Transc.fabs x).val = |x.val|) (a :
     · unfold Vec.normInf Vec.normInfBy
       simp only [List.getElem?_toArray, List.getElem?_cons_zero]
       rw [hex, ← Array.foldl_toList]
+      -- (repair D14) the NaN test `|x| != |x|` of `norm_inf` never fires in the standard model (no NaN there)
+      have hstep : (fun (r x : Fl M) => if ScalarExt.lt r (Transc.fabs x) || !(Transc.fabs x == Transc.fabs x) then Transc.fabs x else r)
+          = (fun r x => if ScalarExt.lt r (Transc.fabs x) then Transc.fabs x else r) := by
+        funext r x; simp
+      rw [hstep]
     · obtain ⟨h1, h2, h3⟩ := foldl_max_spec_fl (fun x : Fl M => Transc.fabs x) t (Transc.fabs x0)
       constructor
       · intro i hi
